@@ -389,6 +389,14 @@ func (p *service) onPublish(msg *message.PublishMessage) error {
 		return err
 	}
 
+	// A broker forwards to existing subscriptions with the retain flag reset
+	// (MQTT-3.3.1-9), to in-process subscribers as well. A client hands the
+	// flag on to its callbacks as received.
+	sr := !p.client && msg.Retain()
+	if sr {
+		msg.SetRetain(false)
+	}
+
 	for i, s := range p.subs {
 		if s != nil {
 			fn := s.(*OnPublishFunc)
@@ -398,6 +406,11 @@ func (p *service) onPublish(msg *message.PublishMessage) error {
 				log.Warningf("%v", err)
 			}
 		}
+	}
+
+	// restore retain flag
+	if sr {
+		msg.SetRetain(true)
 	}
 
 	return nil
